@@ -19,6 +19,7 @@ package main
 import (
 	"crypto/md5"
 	"fmt"
+	"io"
 	"math"
 	"math/big"
 	"os"
@@ -134,6 +135,27 @@ func valCaseSexp(env *zygo.Zlisp, v *V, sx zygo.Sexp, prefix, extra string, json
 		}
 		return sb.String()
 	})
+	// the REPL front end: the printed text typed at the prompt, line by line
+	rp := guard(func() string {
+		savedOut := os.Stdout
+		if null, err := os.OpenFile(os.DevNull, os.O_WRONLY, 0); err == nil {
+			os.Stdout = null // the reader prints prompts
+			defer func() { os.Stdout = savedOut; null.Close() }()
+		}
+		_, ex, err := zygo.VerifReplEntry(env, printed+"\n")
+		st := "D"
+		if err == zygo.ErrMoreInputNeeded || err == io.EOF {
+			st = "M"
+		} else if err != nil {
+			st = "E"
+		}
+		var sb strings.Builder
+		sb.WriteString(st)
+		for _, x := range ex {
+			sb.WriteString(" | " + canonSexp(x, 0))
+		}
+		return sb.String()
+	})
 	ev, src, saved, wfile := "-", "-", "-", "-"
 	if jsonlike {
 		ev = guard(func() string {
@@ -186,7 +208,7 @@ func valCaseSexp(env *zygo.Zlisp, v *V, sx zygo.Sexp, prefix, extra string, json
 	} else if v.hasHash() {
 		j = "2" // a hash outside the JSON-like fragment: the property is silent, correspondence only
 	}
-	impl := "P=" + p + " ;; R=" + rd + " ;; E=" + ev + " ;; S=" + src + " ;; SV=" + saved + " ;; W=" + wfile
+	impl := "P=" + p + " ;; R=" + rd + " ;; RP=" + rp + " ;; E=" + ev + " ;; S=" + src + " ;; SV=" + saved + " ;; W=" + wfile
 	out.Case(prefix+" "+j+" "+extra+v.canon(true), impl, true, tags...)
 }
 
@@ -606,7 +628,7 @@ func litStream(rng *lib.Rng, maxLen int, nRandom int) {
 		"18446744073709551616ULL", "0xffffffffffffffffULL", "0x7fffffffffffffff", "0x8000000000000000", "0o777777777777777777777", "0o1777777777777777777777ULL",
 		"0b111111111111111111111111111111111111111111111111111111111111111", "1_000_000", "1__0", "1_", "-1_0", "0x1_f", "1.7976931348623157e308", "1.7976931348623159e308",
 		"1e309", "4.9e-324", "2.4703282292062327e-324", "2.4703282292062328e-324", "1e-400", "0.1", "0.30000000000000004", "123456789.123456789", "1_0.5_0", "1._5", "1_.5", "1.5_",
-		"1e1_0", "1e_1", "1E5", "1e+5", "1e-5", "-.5", ".5", "-0.0", "-0", "0.", "-0.", "00", "007", "0x", "0o8", "0b2", "12ULL", "0x1FULL", "0o17ULL", "ffULL", "0b1ULL", "1e5ULL",
+		"1e1_0", "1e_1", "1E5", "1e+5", "1e-5", "-.5", ".5", "-0.0", "-0", "0.", "-0.", "00", "007", "0x", "0o8", "0b2", "12ULL", "0x1FULL", "0o17ULL", "0x0ULL", "0x00ULL", "0o0ULL", "0o000ULL", "0ULL", "00ULL", "0x00ffULL", "0o0017ULL", "0xffffffffffffffffULL", "0x0", "0x00", "0o0", "0o00", "0b0", "0b00", "0x00ff", "0o0017", "0b0011", "000", "-000", "0.0", "00.5", "0e0", "0x0xULL", "0o0oULL", "ffULL", "0b1ULL", "1e5ULL",
 		"9007199254740993.0", "9007199254740993", "0.000001", "1e23", "8.41e21", "179769313486231570000000000000000000000000000000000000000000000000000000000000000000000000000000000000000000000000000000000000000000000000000000000000000000000000000000000000000000000000000000000000000000000000000000000000000000000000000000000000000000000000000000000000000000000000000000000000000000000000000000000000000000000000000000000000.0"}
 	for _, s := range fixed {
 		litCase(env, s, true, &skipped, "lit:fixed")
@@ -620,12 +642,18 @@ func litStream(rng *lib.Rng, maxLen int, nRandom int) {
 		switch rng.Intn(8) {
 		case 0:
 			sb.WriteString("0x")
-			for j := 0; j < 1+rng.Intn(17); j++ {
+			for j := rng.Intn(4); j > 0 && rng.Intn(2) == 0; j-- { // leading zeros, also an all-zero literal
+				sb.WriteByte('0')
+			}
+			for j := 0; j < rng.Intn(18); j++ {
 				sb.WriteByte("0123456789abcdefABCDEF"[rng.Intn(22)])
 			}
 		case 1:
 			sb.WriteString("0o")
-			for j := 0; j < 1+rng.Intn(23); j++ {
+			for j := rng.Intn(4); j > 0 && rng.Intn(2) == 0; j-- {
+				sb.WriteByte('0')
+			}
+			for j := 0; j < rng.Intn(24); j++ {
 				sb.WriteByte(digits[rng.Intn(8)])
 			}
 		case 2:
